@@ -179,14 +179,41 @@ impl Property for C13 {
         }
         let at = cands[t.below(cands.len())];
         let mut fault_item = at;
+        let mut twin = false;
         let kind: &str;
         match prog.items[at].clone() {
             Item::Instr(mut ins) => {
                 let has_expr = ins.ops.iter().any(|o| matches!(o.op, IOp::Expr(_)) || matches!(&o.op, IOp::Word(_)));
-                match t.draw(3) {
+                match if crate::engine::gen_version() >= 4 { t.draw(4) } else { t.draw(3) } {
                     0 => {
                         ins.mnemonic = "qqq".into();
                         kind = "unknown-instruction";
+                    }
+                    3 if has_expr => {
+                        // v4: the SAME instruction text twice, with no directive in between: valid under the first global
+                        // label (where `.zqloc` is a small constant), faulty under the second (where it is not declared,
+                        // or is far too large) - the cause belongs to the second line
+                        let k = ins.ops.iter().position(|o| matches!(o.op, IOp::Expr(_) | IOp::Word(_))).unwrap();
+                        ins.ops[k].op = IOp::Word(".zqloc".into());
+                        let mut seq = vec![
+                            Item::Label { dots: 0, name: "zqg1".into() },
+                            Item::Const { dots: 1, name: "zqloc".into(), e: lit_of(1), noemit: false },
+                            Item::Instr(ins.clone()),
+                            Item::Label { dots: 0, name: "zqg2".into() },
+                        ];
+                        if t.flip() {
+                            seq.push(Item::Const { dots: 1, name: "zqloc".into(), e: huge(), noemit: false });
+                            kind = "same-text-out-of-range-in-second-scope";
+                        } else {
+                            kind = "same-text-undefined-in-second-scope";
+                        }
+                        fault_item = at + seq.len();
+                        for (i, it) in seq.into_iter().enumerate() {
+                            prog.items.insert(at + i, it);
+                        }
+                        // (prog.items[fault_item] is the original instruction, replaced below by the edited one)
+                        prog.items[fault_item] = Item::Instr(ins.clone());
+                        twin = true;
                     }
                     1 if has_expr => {
                         let k = ins.ops.iter().position(|o| matches!(o.op, IOp::Expr(_) | IOp::Word(_))).unwrap();
@@ -203,7 +230,9 @@ impl Property for C13 {
                         kind = "unknown-instruction";
                     }
                 }
-                prog.items[at] = Item::Instr(ins);
+                if !twin {
+                    prog.items[at] = Item::Instr(ins);
+                }
             }
             Item::Data { width, mut elems } => {
                 if t.flip() {
@@ -226,8 +255,18 @@ impl Property for C13 {
                         // much longer than its placeholder and out of range for the inner instruction
                         let n = t.urange(20, 120);
                         let acc = if t.flip() { "\u{e9}" } else { "e" };
-                        prog.items[at] = Item::Raw(format!("zqmac 0x1{}", "0".repeat(n)));
-                        prog.items.push(Item::Raw(format!("#ruledef zqm\n{{\n    zqemit {{x: u8}} => 0x77 @ x\n    zqmac {{x}} => asm {{ zqemit {{x}} }} ; {}\n}}", acc)));
+                        if crate::engine::gen_version() >= 4 && t.chance(1, 4) && !prog.items.iter().any(|i| matches!(i, Item::BankDef(_))) {
+                            // v4 (programs without banks; both added instructions are 16 bits): an earlier, correct line reads a position BEHIND the faulty block through a constant; with the
+                            // block unresolved (no size) that distance is exactly 7: inside s4 AND u8, so the line is
+                            // ambiguous for the guess, while the true value (>= 8) fits u8 only
+                            prog.items[at] = Item::Raw(format!("#align 8\nzqhere = $\nzqamb zqafter - zqhere + 5\nzqmac 0x1{}\nzqafter = $", "0".repeat(n)));
+                            fault_line_offset = 3;
+                            prog.items.push(Item::Raw(format!("#ruledef zqm\n{{\n    zqemit {{x: u8}} => 0x77 @ x\n    zqmac {{x}} => asm {{ zqemit {{x}} }} ; {}\n    zqamb {{v: s4}} => 0xb @ v @ 0x00\n    zqamb {{v: u8}} => 0x80 @ v\n}}", acc)));
+                            ctx.label("fault:asm-block-argument-out-of-range:position-behind-read-before");
+                        } else {
+                            prog.items[at] = Item::Raw(format!("zqmac 0x1{}", "0".repeat(n)));
+                            prog.items.push(Item::Raw(format!("#ruledef zqm\n{{\n    zqemit {{x: u8}} => 0x77 @ x\n    zqmac {{x}} => asm {{ zqemit {{x}} }} ; {}\n}}", acc)));
+                        }
                         kind = "asm-block-argument-out-of-range";
                     } else if crate::engine::gen_version() >= 2 && t.chance(1, 7) {
                         // v2: a rule whose production is a multi-line asm block with one faulty `{...}` substitution;
@@ -383,10 +422,40 @@ impl Property for C13 {
         if place.as_ref() != Some(&want) {
             ctx.want_render = true;
             ctx.render(render);
+            // a class of its own: the fault sits in an asm block (which has no size while it cannot be resolved), a label
+            // behind it therefore keeps a guessed address, and an EARLIER, correct line that names that label is reported first
+            let earlier = (kind.starts_with("asm-block-") || kind == "constraint-fails-three-rules-deep") && matches!(&place, Some((f, l)) if *f == want.0 && *l < want.1);
             return Verdict::fail(
-                format!("B|{}|first-error-elsewhere", kind),
+                format!("B|{}|{}", kind, if earlier { "an-earlier-line-reports-first" } else { "first-error-elsewhere" }),
                 format!("fault on {}:{} (`{}`), first error `{}` is located at {:?}", want.0, want.1, loc.text, first.descr, place),
             );
+        }
+        // v4: the message that NAMES the cause of an operand fault (unknown symbol / out of range for a type) quotes the
+        // operand the user wrote: wherever it sits in the tree of the first error, it belongs to the faulty line too
+        if crate::engine::gen_version() >= 4 && (kind == "undefined-symbol" || kind == "out-of-range-operand" || kind.starts_with("same-text-")) {
+            let top = msgs.iter().find(|m| m.kind == 'E').unwrap();
+            let mut all = Vec::new();
+            top.flatten(&mut all);
+            for m in all {
+                if !(m.descr.starts_with("unknown symbol") || m.descr.starts_with("argument out of range for type")) {
+                    continue;
+                }
+                let place = match (&m.file, m.loc) {
+                    (Some(f), Some((a, _))) => {
+                        let text = r.files.iter().find(|x| &x.0 == f).map(|x| x.1.clone()).unwrap_or_default();
+                        line_col(&text, a).map(|lc| (f.clone(), lc.0))
+                    }
+                    _ => None,
+                };
+                if place.as_ref() != Some(&want) {
+                    ctx.want_render = true;
+                    ctx.render(render);
+                    return Verdict::fail(
+                        format!("B|{}|cause-located-elsewhere", kind),
+                        format!("fault on {}:{} (`{}`), the message naming the cause, `{}`, is located at {:?}", want.0, want.1, loc.text, m.descr, place),
+                    );
+                }
+            }
         }
         // every location of the whole message tree is valid (as in part A)
         let lookup = |n: &str| r.files.iter().find(|x| x.0 == n).map(|x| x.1.clone());
